@@ -56,6 +56,10 @@ register("C09", "exploration", "E1 explore", "exhaustive enumeration of all targ
          "All 2^n subsets of the member names of three archives (solid, reference-written multi-folder with interleaved directories, py7zr append sessions) with/without an absent name x list/set x trailing slash x recursive x factory/directory sink x stream/path (sequential/thread-parallel); oracle = restriction of the member map, nothing else created. The target space is finite, so it is enumerated completely.",
          "Names respect the property's prefix restriction; bytes are compared with the archive's own member map (the same that extractall delivers, checked by C01/C06).", "DESIGN.md section 5 C09")
 
+register("C08", "model_checking", "E3 bfs", "exhaustive enumeration of session histories (create + appends) on the real code, member map read by two independent readers after every session",
+         "Every first session over 8 member-list kinds x 5 chains x header modes, extended by every append session (depth 1), every pair over a reduced alphabet (depth 2; thorough: triples), plus every reference-written layout and every third-party fixture as initial state; after each session py7zr and ref7z must both see the previous member map unchanged (name, kind, bytes, mtime, attributes) followed by the appended members.",
+         "Password constant along a history; ctime/atime not compared (the property observes mtime and attributes); stored '\\' separators compared as '/'.", "DESIGN.md section 5 C08")
+
 NOT_YET = {}
 
 
